@@ -37,6 +37,7 @@ struct Task {
   uint64_t next_preempt;    // yield count of next pre-emption (search: drawn; replay: from list)
   uint64_t switched_in_at;  // yields value when switched in
   uint64_t blocked_at;      // yields value when the task last blocked (spin detection)
+  uint64_t blocked_step;    // global step number at which the task blocked (sleeper boost)
   int64_t dil_out;          // part of the current run's dilation already added to dilation_closed (while switched out)
   size_t replay_idx;        // index in per-task replay preemption list
   const char* what; const void* obj; int64_t deadline; bool timed_out;
@@ -158,9 +159,18 @@ static int64_t dilationOf(uint64_t run) {
   // whose timers fell behind) must be able to catch up - uncapped, every step would make more work due than it does (seen: 1 ms timers, C14).
   return d < g.cfg.dilation_cap_ns ? d : g.cfg.dilation_cap_ns;
 }
+// Sleeper boost: a task that has been blocked with a deadline for more than sleeper_patience steps of the other tasks' execution is
+// evidently waiting for time while the rest of the system keeps computing (busy-waits that hand a lock back and forth never build up
+// the per-task dilation above).  The clock is then advanced to its deadline at once - the other tasks were "slow", a legal schedule;
+// nothing happens early.  The value is a function of the execution only (folding it into time_base here or later gives the same reads).
 int64_t nowNs() {
   int64_t t = g.time_base + (int64_t)g.steps * 50 + g.dilation_closed;
   if (g.cur) { Task& c = g.t[g.cur]; t += dilationOf(c.yields - c.blocked_at); }
+  if (g.cfg.sleeper_patience > 0) {
+    int64_t target = -1;
+    for (int i = 1; i <= g.ntasks; ++i) { Task& b = g.t[i]; if (b.state == 2 && b.deadline > t && g.steps - b.blocked_step > (uint64_t)g.cfg.sleeper_patience && b.deadline > target) target = b.deadline; }
+    if (target > t) { g.time_base += target - t; t = target; }
+  }
   return t;
 }
 int64_t realtimeNs() { return nowNs() + g.real_off; }
@@ -428,7 +438,7 @@ bool blockOn(const char* what, const void* obj, int64_t deadline) {
   if (t.nopreempt) stubError("blockOn(%s) inside NoPreempt", what);
   t.state = 2; t.what = what; t.obj = obj; t.deadline = deadline; t.timed_out = false;
   g.dilation_closed += dilationOf(t.yields - t.blocked_at) - t.dil_out; t.dil_out = 0;
-  g.steps++; t.yields++; t.blocked_at = t.yields;
+  g.steps++; t.yields++; t.blocked_at = t.yields; t.blocked_step = g.steps;
   logText(what, 0, deadline, 0);
   scheduleAway();
   // resumed
